@@ -6,6 +6,39 @@ import os
 VERIF = os.path.dirname(os.path.dirname(os.path.abspath(__file__)))
 
 CHECKS = {
+    "C06": {
+        "text": "Three exhaustively enumerated families with csv.writer's input as ground truth: every single-record file of 0..3 cells over a "
+        "17-cell hostile alphabet (incl. backslashes) under 8 dialects; every 2-record (thorough 3) file incl. blank records under 8 dialects (an "
+        "unbalanced quote must not swallow the next record); every header row of 1..3 names x every data-row length, comparing '#name' "
+        "and '#index' and requiring a short row to read as absent. Thorough adds delivery through CsvPaths serial and breadth-first.",
+        "design": "3 / C06",
+        "note": "trusted: csv.writer as producer; cell alphabet of 17 strings (no CR); header cleaning rule from the statement",
+        "technique": "bounded exhaustive enumeration of files x dialects on the real reader and header addressing against the written rows",
+    },
+    "C16": {
+        "text": "Every well-formed print template of <=3 (thorough 4) chunks over 10 text chunks and 6 (12) reference forms x files x the three "
+        "qualifier forms, executed as a real csvpath and compared entry by entry with the chunk-wise expansion in models/refprint.py.",
+        "design": "3 / C16",
+        "note": "trusted: models/refprint.py; not asserted: references to missing values, adjacent references without any separating character",
+        "technique": "bounded exhaustive enumeration of print templates on the real print parser against a chunk-expansion model",
+    },
+    "C08": {
+        "text": "Every ordered group of 1-2 (thorough 3) members from an 11-member alphabet x files of <=3 records x the six run methods (and "
+        "if_all_agree): every member's lines, variables incl. private keys, printouts, validity and counters must equal a standalone "
+        "CsvPath run; the caller's lines of a breadth-first run must be the per-record union/intersection of the members' decisions.",
+        "design": "3 / C08",
+        "note": "differential oracle (standalone run is the reference); members avoid cross-path signals, references and line rewriting",
+        "technique": "bounded exhaustive differential exploration of both schedules (path-major, line-major) and all group orders on the real code",
+    },
+    "C19": {
+        "text": "22 jobs touching every process-global/on-disk shared thing; each job's reference record is produced by running it first in its own "
+        "fresh interpreter; every ordered pair (and triples over a subset; thorough: all triples, 4-sequences) is then run in a long-lived "
+        "process and every record compared with its fresh twin; CsvPaths jobs are re-run in a second fresh process that inherits the "
+        "first one's cache directory.",
+        "design": "3 / C19",
+        "note": "differential oracle against fresh processes; compares lines, variables, printouts, headers, error (line, class), verdict, counters",
+        "technique": "exhaustive enumeration of job histories in one process, each job differentially checked against a fresh-process run",
+    },
     "C18": {
         "text": "Fault enumeration of every (member index, record index) abort point: groups of 1-3 (thorough 4) members with the aborting member at "
         "every index, two error kinds, 'raise' configured by validation-mode comment or by config policy, files of 2-4 (8) records, all "
